@@ -1,0 +1,10 @@
+//go:build verif
+
+package webp
+
+import "github.com/deepteams/webp/internal/bitio"
+
+// VerifBitioLosslessReaderRun re-exports bitio.VerifLosslessReaderRun for the /verif harness.
+func VerifBitioLosslessReaderRun(data []byte, ops []int) ([]uint32, []bool) {
+	return bitio.VerifLosslessReaderRun(data, ops)
+}
